@@ -27,6 +27,8 @@ _code_matches = []
 
 
 def find_core_tokens(string, root):
+    # discard code matches left behind by a scan that was aborted by an exception
+    del _code_matches[:]
     delimiters = []
     matches = []
     escaped = False
